@@ -838,7 +838,18 @@ func (w *worker) assertHolds(label string, c *Term) {
 
 func (w *worker) currentModel() *model {
 	if w.m != nil {
-		return w.m
+		needTerms := false
+		if w.m.home != w.s {
+			for _, in := range w.inputs {
+				if in.w == wStr {
+					needTerms = true // string inversion reads values of this worker's terms
+					break
+				}
+			}
+		}
+		if !needTerms {
+			return w.m
+		}
 	}
 	r, m := w.s.check(nil, w.inputs, true)
 	if r != resSat {
@@ -886,6 +897,9 @@ func (w *worker) inputVals(m *model) []InputVal {
 			iv.IsStr = true
 			iv.Width = 0
 			iv.Str = w.strValue(in, m)
+			if os.Getenv("VERIF_DEBUG_STR") != "" {
+				fmt.Fprintf(os.Stderr, "strinput %s abs=%q -> %q\n", in.name, m.ts[in], iv.Str)
+			}
 		} else {
 			iv.Val = m.bv[in.name] & mask1(in.w)
 		}
